@@ -330,6 +330,12 @@ namespace cs
         catch (Violation& v)
         {
             v.step       = step;
+            // after a move assignment of the composition everything that goes wrong is also a matter of C12
+            bool moved = false;
+            for (int k = 0; k <= step && std::size_t(k) < plan.ops.size(); ++k)
+                moved = moved || plan.ops[std::size_t(k)].kind == "mvw";
+            if (moved && v.prop.find("C12") == std::string::npos)
+                v.prop += ",C12";
             res.violated = true;
             res.v        = v;
             for (int i = 0; i < 4; ++i)
